@@ -27,14 +27,14 @@ type Violation struct {
 
 // Result is what running one case produced.
 type Result struct {
-	Index        int              `json:"i"`
-	Evals        int              `json:"evals"`
-	Keys         []string         `json:"keys,omitempty"` // distinct non-trivial case keys
-	Violations   []Violation      `json:"viol,omitempty"`
-	Events       map[string]int64 `json:"ev,omitempty"` // monitor counters
+	Index        int                 `json:"i"`
+	Evals        int                 `json:"evals"`
+	Keys         []string            `json:"keys,omitempty"` // distinct non-trivial case keys
+	Violations   []Violation         `json:"viol,omitempty"`
+	Events       map[string]int64    `json:"ev,omitempty"`   // monitor counters
 	Sets         map[string][]string `json:"sets,omitempty"` // monitor distinct-value sets (bounded)
-	Inconclusive []string         `json:"inc,omitempty"`
-	Sample       interface{}      `json:"sample,omitempty"`
+	Inconclusive []string            `json:"inc,omitempty"`
+	Sample       interface{}         `json:"sample,omitempty"`
 }
 
 // R is a small helper for building a Result inside a check.
